@@ -41,6 +41,8 @@ type Case struct {
 	// Rot: delegate-key rotations (MsgDelegateKeys with a fresh orchestrator and external key) applied in one block after
 	// the history; only the checks that look at the registry afterwards (C15) execute them.
 	Rot []Rot `json:"rot,omitempty"`
+	// Gone: validators (indexes) that leave the staking store in that same block (their registry entries stay)
+	Gone []int `json:"gone,omitempty"`
 }
 
 type Rot struct {
@@ -78,6 +80,8 @@ type GenOpts struct {
 	ParamSalt bool
 	// ByzHeights: most Byzantine claims lie about the external height
 	ByzHeights bool
+	// HighCounters: batch nonces / sequences start high (255, 256, 65535 ... are reached within a history)
+	HighCounters bool
 }
 
 var ethIds = []string{
@@ -155,6 +159,11 @@ func GenConfig(t *rapid.T, o GenOpts) sim.Config {
 	}
 	// a short signed-signer-set window lets BeginBlocker prune observed signer sets within a history
 	cfg.SignerSetWindow = rapid.SampledFrom([]uint64{1, 3, 10000, 10000}).Draw(t, "sswindow")
+	if o.HighCounters {
+		// a chain that has been running: batch nonces and sequence numbers around byte and word boundaries
+		cfg.StartBatchNonce = rapid.SampledFrom([]uint64{0, 0, 0, 253, 254, 255, 65533, 65534, 4294967294}).Draw(t, "startbatch")
+		cfg.StartSequence = rapid.SampledFrom([]uint64{0, 0, 0, 253, 254, 65534}).Draw(t, "startseq")
+	}
 	if o.ParamSalt {
 		cfg.ParamSalt = uint64(rapid.IntRange(1, 500).Draw(t, "paramsalt"))
 	}
@@ -449,6 +458,9 @@ func GenCase(o GenOpts) func(t *rapid.T) interface{} {
 			c.Ops = Prelude()
 		}
 		c.Ops = append(c.Ops, GenOps(t, cfg, o)...)
+		if o.Rotations && len(cfg.Vals) >= 2 && rapid.IntRange(0, 9).Draw(t, "leave") < 2 {
+			c.Gone = append(c.Gone, rapid.IntRange(1, len(cfg.Vals)-1).Draw(t, "gone"))
+		}
 		if o.Rotations && rapid.IntRange(0, 9).Draw(t, "rotate") < 4 {
 			for n := rapid.IntRange(1, 3).Draw(t, "nrot"); n > 0; n-- {
 				c.Rot = append(c.Rot, Rot{Val: rapid.IntRange(0, len(cfg.Vals)-1).Draw(t, "rotval"), Chain: rapid.IntRange(0, 2).Draw(t, "rotchain"), Orch: rapid.IntRange(0, 7).Draw(t, "rotorch")})
